@@ -8,7 +8,7 @@ try:
 except ImportError:  # pragma: no cover
     from monotonic import monotonic
 
-from .common import _Future, MAX_TIMEOUT, copy_future_exception
+from .common import _Future, MAX_TIMEOUT, copy_future_exception, try_set_result
 from .wrap import CanCustomizeBind
 from .helpers import executor_loop
 from .event import get_event, is_shutdown
@@ -464,7 +464,8 @@ def copy_future(f1, f2):
     if exception:
         copy_future_exception(f1, f2)
     else:
-        f2.set_result(result)
+        # f2 was handed out to the user, who may have cancelled it meanwhile
+        try_set_result(f2, result)
 
 
 def eval_policy(job, logger):
@@ -513,8 +514,10 @@ def _submit_loop(executor_ref):
 
         if job.stop_retry:
             executor._log.debug("Discarding job due to cancel: %s", job)
-            executor._pop_job(job)
+            # Resolve the future before removing its job, so that a concurrent
+            # cancel() never finds a pending future without a job.
             copy_future(job.old_delegate, job.future)
+            executor._pop_job(job)
             continue
 
         now = monotonic()
